@@ -40,7 +40,196 @@ let show_nodes ns = String.concat "." (List.map (fun x -> soi (ni x)) ns)
 let str_valid m kind = match kind with
   | "utf8" -> is_utf8_string m | "prn" -> is_printable_string | _ -> is_ia5_string
 
+
+(* ---- X.509 layer (coq/Codec/X509.v): "OK f1 f2 ... <consumed>" | "ABSENT f1 ..." | "ERR" | "FAULT".
+   Alternatives for the as-is text: ~digest_ret=, ~dp_uri=.  Hints: P=<65 octets>:<0|1>,... *)
+let x509_ops = ["xdgstE";"xdgstD";"xsigaE";"xsigaD";"xpkeE";"xpkeD";"xextidD";"xextD";"xextsget";"xothernD";"xgnD";"xgnsnext";"xgnsfirst";"xurignsD";
+  "xakiD";"xbcD";"xdtextD";"xnrefD";"xunoticeD";"xpqiD";"xcpidD";"xpolinfoD";"xpolmapD";"xattrD";"xgsubD";"xncD";"xpcD";"xkpD";"xekuD";"xekuE";
+  "xdpnD";"xuridpnD";"xuriedpnD";"xuridpD";"xuridpsD";"xaccmD";"xaccdD";"xaiaD";"xdirnD";"xedirnD";"xediD";"xatvD";"xrdnD";"xrdnchk";"xnamechk";
+  "xverD";"xtimeD";"xvalidD";"xxextsD";"xtbsD";"xcertdet";"xsignedD";"xcertD"]
+let zs z = soi (int_of_z z)
+let zi x = z_of_int (int_of_string x)
+let nn x = n_of_int (int_of_string x)
+let f_ptr = function PUnset -> "POISON" | PNull -> "NULL" | PBuf d -> hx d
+let f_nodes ns = if ns = [] then "." else show_nodes ns
+let f_ints l = if l = [] then "." else String.concat "," (List.map zs l)
+let f_nints l = if l = [] then "." else String.concat "," (List.map (fun x -> soi (ni x)) l)
+let f_time t = soi (ni t)
+let xres ?(abs="") ?(consumed=true) inp (r : 'a res) (show : 'a -> string list * n list) = match r with
+  | Ok v -> let (fs, rest) = show v in
+    String.concat " " ("OK" :: fs) ^ (if consumed then " " ^ soi (llen inp - llen rest) else "")
+  | Absent -> if abs = "" then "ABSENT" else "ABSENT " ^ abs
+  | Err -> "ERR" | Fault -> "FAULT"
+let xenc r = match r with Ok e -> "OK " ^ hx e ^ " " ^ soi (llen e) | Absent -> "ABSENT" | Err -> "ERR" | Fault -> "FAULT"
+let alt name fixed asis = if asis = fixed then fixed else fixed ^ " ~" ^ name ^ "=" ^ asis
+let handle_x509 op args =
+  let hints pre = List.concat (List.map (fun a ->
+      if String.length a > 2 && String.sub a 0 2 = pre then
+        List.map (fun kv -> match split_on ':' kv with [k; v] -> (k, v) | _ -> failwith "hint") (split_on ',' (String.sub a 2 (String.length a - 2)))
+      else []) args) in
+  let hP = hints "P=" in
+  let pt_ok o = (match List.assoc_opt (hx o) hP with Some v -> v = "1" | None -> failwith ("NOHINT-pt " ^ hx o)) in
+  let args = List.filter (fun a -> not (String.length a > 2 && a.[1] = '=')) args in
+  let tbs_f (t : tbs_cert) = [zs t.t_version; hx t.t_serial; zs t.t_sigalg; hx t.t_issuer; f_time t.t_not_before; f_time t.t_not_after; hx t.t_subject;
+                              hx t.t_pub; f_ptr t.t_issuer_uid; f_ptr t.t_subject_uid; f_ptr t.t_exts] in
+  match op, args with
+  | "xdgstE", [id] -> xenc (digest_algor_to_der (zi id))
+  | "xdgstD", [h] -> let i = bytes_of_hex h in
+    let f fx = xres ~abs:"0" i (digest_algor_from_der fx i) (fun (id, r) -> ([zs id], r)) in alt "digest_ret" (f true) (f false)
+  | "xsigaE", [id] -> xenc (sign_algor_to_der (zi id))
+  | "xsigaD", [h] -> let i = bytes_of_hex h in xres ~abs:"0" i (sign_algor_from_der i) (fun (id, r) -> ([zs id], r))
+  | "xpkeE", [id] -> xenc (pke_algor_to_der (zi id))
+  | "xpkeD", [h] -> let i = bytes_of_hex h in xres ~abs:"0 NULL" i (pke_algor_from_der i) (fun ((id, p), r) -> ([zs id; f_ptr p], r))
+  | "xextidD", [h] -> let i = bytes_of_hex h in xres ~abs:"-1 ." i (ext_id_from_der i) (fun ((id, ns), r) -> ([zs id; f_nodes ns], r))
+  | "xextD", [h] -> let i = bytes_of_hex h in
+    xres ~abs:"POISON POISON POISON POISON" i (ext_from_der i) (fun ((((id, ns), c), v), r) -> ([zs id; f_nodes ns; zs c; hx v], r))
+  | "xextsget", [oid; h] -> let d = bytes_of_hex h in
+    (match exts_get_ext_by_oid d (zi oid) with
+     | Ok (Some (c, v)) -> "OK " ^ zs c ^ " " ^ hx v | Ok None -> "ABSENT -1 NULL" | Absent -> "ABSENT" | Err -> "ERR" | Fault -> "FAULT")
+  | "xothernD", [h] -> let i = bytes_of_hex h in xres ~abs:"POISON POISON" i (other_name_from_der i) (fun ((ns, v), r) -> ([f_nodes ns; hx v], r))
+  | "xgnD", [h] -> let i = bytes_of_hex h in xres ~abs:"POISON NULL" i (general_name_from_der i) (fun ((c, v), r) -> ([zs c; hx v], r))
+  | ("xgnsnext" | "xgnsfirst"), _ ->
+    let (c, off, h) = (match args with [c; off; h] -> (c, off, h) | [c; h] -> (c, "0", h) | _ -> failwith "args") in
+    let g = bytes_of_hex h in
+    (match (if op = "xgnsnext" then general_names_get_next g (nn off) (zi c) else general_names_get_first g (zi c)) with
+     | Ok (Some (v, r)) -> "OK " ^ hx v ^ " " ^ soi (llen g - llen r) | Ok None -> "ABSENT NULL" | Absent -> "ABSENT" | Err -> "ERR" | Fault -> "FAULT")
+  | "xurignsD", [tag; h] -> let i = bytes_of_hex h in xres ~abs:"NULL" i (uri_as_general_names_from_der (nn tag) i) (fun (u, r) -> ([f_ptr u], r))
+  | "xakiD", [h] -> let i = bytes_of_hex h in
+    xres ~abs:"POISON POISON POISON" i (aki_from_der i) (fun (((k, is), sn), r) -> ([f_ptr k; f_ptr is; f_ptr sn], r))
+  | "xbcD", [h] -> let i = bytes_of_hex h in xres ~abs:"-1 -1" i (basic_constraints_from_der i) (fun ((ca, plc), r) -> ([zs ca; zs plc], r))
+  | "xdtextD", [h] -> let i = bytes_of_hex h in xres i (display_text_from_der i) (fun ((t, v), r) -> ([zs t; hx v], r))
+  | "xnrefD", [mx; h] -> let i = bytes_of_hex h in
+    xres i (notice_reference_from_der (nn mx) i) (fun (((t, org), nums), r) -> ([zs t; hx org; f_nints nums], r))
+  | "xunoticeD", [mx; h] -> let i = bytes_of_hex h in
+    xres i (user_notice_from_der (nn mx) i) (fun ((nref, txt), r) ->
+      ((match nref with Some ((t, org), nums) -> [zs t; hx org; f_nints nums] | None -> ["POISON"; "POISON"; "POISON"])
+       @ (match txt with Some (t, v) -> [zs t; hx v] | None -> ["POISON"; "POISON"]), r))
+  | "xpqiD", [h] -> let i = bytes_of_hex h in xres i (policy_qualifier_info_from_der i) (fun ((id, q), r) -> ([zs id; hx q], r))
+  | "xcpidD", [h] -> let i = bytes_of_hex h in xres ~abs:"-1 ." i (cert_policy_id_from_der i) (fun ((id, ns), r) -> ([zs id; f_nodes ns], r))
+  | "xpolinfoD", [h] -> let i = bytes_of_hex h in xres i (policy_information_from_der i) (fun (((id, ns), q), r) -> ([zs id; f_nodes ns; f_ptr q], r))
+  | "xpolmapD", [h] -> let i = bytes_of_hex h in
+    xres i (policy_mapping_from_der i) (fun ((((i1, n1), i2), n2), r) -> ([zs i1; f_nodes n1; zs i2; f_nodes n2], r))
+  | "xattrD", [h] -> let i = bytes_of_hex h in xres i (attribute_from_der i) (fun ((ns, v), r) -> (["0"; f_nodes ns; hx v], r))
+  | "xgsubD", [h] -> let i = bytes_of_hex h in
+    xres i (general_subtree_from_der i) (fun ((((c, b), mn), mx), r) -> ([zs c; hx b; zs mn; zs mx], r))
+  | "xncD", [h] -> let i = bytes_of_hex h in xres i (name_constraints_from_der i) (fun ((a, b), r) -> ([f_ptr a; f_ptr b], r))
+  | "xpcD", [h] -> let i = bytes_of_hex h in xres ~abs:"-1 -1" i (policy_constraints_from_der i) (fun ((a, b), r) -> ([zs a; zs b], r))
+  | "xkpD", [h] -> let i = bytes_of_hex h in xres ~abs:"-1" i (key_purpose_from_der i) (fun (id, r) -> ([zs id], r))
+  | "xekuD", [mx; h] -> let i = bytes_of_hex h in xres ~abs:"." i (ext_key_usage_from_der (nn mx) i) (fun (ids, r) -> ([f_ints ids], r))
+  | "xekuE", [ids] -> xenc (ext_key_usage_to_der (if ids = "." then [] else List.map zi (split_on ',' ids)))
+  | "xdpnD", [h] -> let i = bytes_of_hex h in xres i (distribution_point_name_from_der i) (fun ((c, v), r) -> ([zs c; hx v], r))
+  | "xuridpnD", [h] -> let i = bytes_of_hex h in
+    let f u0 = xres i (uri_as_dpn_from_der u0 i) (fun (u, r) -> ([f_ptr u], r)) in alt "dp_uri" (f PNull) (f PUnset)
+  | "xuriedpnD", [ix; h] -> let i = bytes_of_hex h in
+    let f u0 = xres i (uri_as_explicit_dpn_from_der u0 (nn ix) i) (fun (u, r) -> ([f_ptr u], r)) in alt "dp_uri" (f PNull) (f PUnset)
+  | "xuridpD", [h] -> let i = bytes_of_hex h in
+    let f u0 = xres i (uri_as_dp_from_der u0 i) (fun (((u, rs), is), r) -> ([f_ptr u; zs rs; f_ptr is], r)) in alt "dp_uri" (f PNull) (f PUnset)
+  | "xuridpsD", [h] -> let i = bytes_of_hex h in
+    let f fx = xres i (uri_as_dps_from_der fx i) (fun (((u, rs), is), r) -> ([f_ptr u; zs rs; f_ptr is], r)) in alt "dp_uri" (f true) (f false)
+  | "xaccmD", [h] -> let i = bytes_of_hex h in xres ~abs:"-1" i (access_method_from_der i) (fun (id, r) -> ([zs id], r))
+  | "xaccdD", [h] -> let i = bytes_of_hex h in xres ~abs:"-1 NULL" i (access_description_from_der i) (fun ((id, u), r) -> ([zs id; hx u], r))
+  | "xaiaD", [h] -> let i = bytes_of_hex h in xres ~abs:"NULL NULL" i (aia_from_der i) (fun ((a, b), r) -> ([f_ptr a; f_ptr b], r))
+  | "xdirnD", [h] -> let i = bytes_of_hex h in xres i (directory_name_from_der i) (fun ((t, v), r) -> ([zs t; hx v], r))
+  | "xedirnD", [ix; h] -> let i = bytes_of_hex h in xres i (explicit_directory_name_from_der (nn ix) i) (fun ((t, v), r) -> ([zs t; hx v], r))
+  | "xediD", [h] -> let i = bytes_of_hex h in
+    xres i (edi_party_name_from_der i) (fun ((a, (t2, v2)), r) ->
+      ((match a with Some (t, v) -> [zs t; hx v] | None -> ["POISON"; "POISON"]) @ [zs t2; hx v2], r))
+  | "xatvD", [h] -> let i = bytes_of_hex h in
+    xres ~abs:"POISON -1 NULL" i (attr_type_and_value_from_der i) (fun (((id, t), v), r) -> ([zs id; zs t; hx v], r))
+  | "xrdnD", [h] -> let i = bytes_of_hex h in
+    xres ~abs:"-1 -1 NULL NULL" i (rdn_from_der i) (fun ((((id, t), v), m), r) -> ([zs id; zs t; hx v; f_ptr m], r))
+  | ("xrdnchk" | "xnamechk"), [h] -> let d = bytes_of_hex h in
+    (match (if op = "xrdnchk" then rdn_check d else name_check d) with Ok _ -> "OK" | Absent -> "ABSENT" | Err -> "ERR" | Fault -> "FAULT")
+  | "xverD", [ix; h] -> let i = bytes_of_hex h in xres ~abs:"-1" i (explicit_version_from_der (nn ix) i) (fun (v, r) -> ([zs v], r))
+  | "xtimeD", [h] -> let i = bytes_of_hex h in xres ~abs:"-1" i (x509_time_from_der i) (fun (t, r) -> ([f_time t], r))
+  | "xvalidD", [h] -> let i = bytes_of_hex h in xres ~abs:"-1 -1" i (validity_from_der i) (fun ((a, b), r) -> ([f_time a; f_time b], r))
+  | "xxextsD", [ix; h] -> let i = bytes_of_hex h in xres ~abs:"NULL" i (explicit_exts_from_der (nn ix) i) (fun (d, r) -> ([hx d], r))
+  | "xtbsD", [h] -> let i = bytes_of_hex h in xres i (tbs_cert_from_der pt_ok i) (fun (t, r) -> (tbs_f t, r))
+  | "xcertdet", [h] -> let i = bytes_of_hex h in
+    xres ~consumed:false i (cert_get_details pt_ok i) (fun ((t, alg), sg) -> (tbs_f t @ [zs alg; hx sg], []))
+  | "xsignedD", [h] -> let i = bytes_of_hex h in xres ~abs:"NULL -1 NULL" i (signed_from_der i) (fun (((t, a), sg), r) -> ([hx t; zs a; hx sg], r))
+  | "xcertD", [h] -> let i = bytes_of_hex h in xres i (cert_from_der pt_ok i) (fun (a, r) -> ([hx a], r))
+  | _ -> "MODEL-BADOP " ^ op
+
+(* ---- SM9 key containers (coq/Codec/Sm9Key.v).  FRAGMENT for props/C14/driver.ml.  Merge:
+     1. paste this fragment before   let handle ws = match ws with
+     2. add as the FIRST case of that match:      | op :: args when List.mem op sm9_ops -> handle_sm9 op args
+   Hint tokens (any position after the op, removed before the arguments are read):
+     G1=<65 octets>:<0|1>,...    verdict of sm9_z256_point_from_uncompressed_octets        (taken from the harness op s9ok)
+     G2=<129 octets>:<0|1>,...   verdict of sm9_z256_twist_point_from_uncompressed_octets  (taken from the harness op s9ok)
+     K=<pass>/<salt>/<iter>:<key>,...   PBKDF2 output for 65536 iterations (taken from the harness op kdf)
+     E=<salt>/<iv>               the 16 + 16 bytes of entropy drawn by the library's writer (op s9sealLib) *)
+let sm9_ops = ["s9oidE";"s9oidD";"s9algE";"s9algD";"s9E";"s9D";"s9ctE";"s9ctD";"s9sealLib";"s9open"]
+let handle_sm9 op args =
+  let zi x = z_of_int (int_of_string x) and zs z = soi (int_of_z z) in
+  let is_hint a = (match String.index_opt a '=' with Some i -> i >= 1 && i <= 2 | None -> false) in
+  let hints pre = List.concat (List.map (fun a ->
+      let pl = String.length pre in
+      if String.length a > pl && String.sub a 0 pl = pre then
+        List.map (fun kv -> match split_on ':' kv with [k; v] -> (k, v) | _ -> failwith "hint") (split_on ',' (String.sub a pl (String.length a - pl)))
+      else []) args) in
+  let hG1 = hints "G1=" and hG2 = hints "G2=" and hK = hints "K=" in
+  let hE = List.concat (List.map (fun a -> if String.length a > 2 && String.sub a 0 2 = "E=" then
+                                       (match split_on '/' (String.sub a 2 (String.length a - 2)) with [s; i] -> [(bytes_of_hex s, bytes_of_hex i)] | _ -> failwith "hint E") else []) args) in
+  (* inside an encrypted container the generator cannot see a tampered point: an unknown point is taken as invalid, the key is refused *)
+  let lenient = (op = "s9open") in
+  let g1_ok o = (match List.assoc_opt (hx o) hG1 with Some v -> v = "1" | None -> if lenient then false else failwith ("NOHINT-g1 " ^ hx o)) in
+  let g2_ok o = (match List.assoc_opt (hx o) hG2 with Some v -> v = "1" | None -> if lenient then false else failwith ("NOHINT-g2 " ^ hx o)) in
+  let kdf pass salt iter = (match List.assoc_opt (hx pass ^ "/" ^ hx salt ^ "/" ^ zs iter) hK with Some v -> bytes_of_hex v | None -> kdf_sm3 pass salt iter) in
+  let args = List.filter (fun a -> not (is_hint a)) args in
+  let enc r = (match r with Ok e -> "OK " ^ hx e ^ " " ^ soi (llen e) | Absent -> "ABSENT" | Err -> "ERR" | Fault -> "FAULT") in
+  let b = bytes_of_hex in
+  let two x y = hx x ^ " " ^ hx y ^ " WHOLE" in
+  let s_smsk (k : sign_msk) = two k.sm_ks k.sm_Ppubs and s_sk (k : sign_key) = two k.sk_ds k.sk_Ppubs in
+  let s_emsk (k : enc_msk) = two k.em_ke k.em_Ppube and s_ek (k : enc_key) = two k.ek_de k.ek_Ppube in
+  (match op, args with
+   | "s9oidE", [id] -> enc (sm9_oid_to_der (zi id))
+   | "s9oidD", [h] -> let i = b h in pr_dec ~abs:"oid=-1" i (sm9_oid_from_der i) (fun (id, r) -> (zs id, r))
+   | "s9algE", [a; p] -> enc (sm9_algor_to_der (zi a) (zi p))
+   | "s9algD", [h] -> let i = b h in pr_dec i (sm9_algor_from_der i) (fun ((a, p), r) -> (zs a ^ " " ^ zs p, r))
+   | "s9E", ["smsk"; f1; f2] -> enc (sign_msk_to_der { sm_ks = b f1; sm_Ppubs = b f2 })
+   | "s9E", ["smpk"; f1; f2] -> enc (sign_mpk_to_der { sm_ks = b f1; sm_Ppubs = b f2 })
+   | "s9E", ["sk"; f1; f2] -> enc (sign_key_to_der { sk_ds = b f1; sk_Ppubs = b f2 })
+   | "s9E", ["emsk"; f1; f2] -> enc (enc_msk_to_der { em_ke = b f1; em_Ppube = b f2 })
+   | "s9E", ["empk"; f1; f2] -> enc (enc_mpk_to_der { em_ke = b f1; em_Ppube = b f2 })
+   | "s9E", ["ek"; f1; f2] -> enc (enc_key_to_der { ek_de = b f1; ek_Ppube = b f2 })
+   | "s9E", ["sig"; f1; f2] -> enc (sm9_sig_to_der (b f1) (b f2))
+   | "s9D", ["smsk"; h] -> let i = b h in pr_dec i (sign_msk_from_der g2_ok i) (fun (k, r) -> (s_smsk k, r))
+   | "s9D", ["smpk"; h] -> let i = b h in pr_dec i (sign_mpk_from_der g2_ok i) (fun (k, r) -> (s_smsk k, r))
+   | "s9D", ["sk"; h] -> let i = b h in pr_dec i (sign_key_from_der g1_ok g2_ok i) (fun (k, r) -> (s_sk k, r))
+   | "s9D", ["emsk"; h] -> let i = b h in pr_dec i (enc_msk_from_der g1_ok i) (fun (k, r) -> (s_emsk k, r))
+   | "s9D", ["empk"; h] -> let i = b h in pr_dec i (enc_mpk_from_der g1_ok i) (fun (k, r) -> (s_emsk k, r))
+   | "s9D", ["ek"; h] -> let i = b h in pr_dec i (enc_key_from_der g1_ok g2_ok i) (fun (k, r) -> (s_ek k, r))
+   | "s9D", ["sig"; h] -> let i = b h in pr_dec i (sm9_sig_from_der g1_ok i) (fun ((hh, s), r) -> (two hh s, r))
+   | "s9ctE", [c1; c2; c3] -> enc (sm9_ct_to_der (b c1) (b c2) (b c3))
+   | "s9ctD", [h] -> let i = b h in
+     pr_dec i (sm9_ct_from_der g1_ok i) (fun (((c1, c2), c3), r) -> (hx c1 ^ " " ^ hx c2 ^ " " ^ hx c3 ^ " WHOLE", r))
+   | "s9sealLib", [ty; f1; f2; pass; _seed] ->
+     (match hE with
+      | [(salt, iv)] ->
+        let pass = b pass in
+        (match ty with
+         | "smsk" -> enc (sign_msk_seal kdf cbcenc_sm4 { sm_ks = b f1; sm_Ppubs = b f2 } pass salt iv)
+         | "sk" -> enc (sign_key_seal kdf cbcenc_sm4 { sk_ds = b f1; sk_Ppubs = b f2 } pass salt iv)
+         | "emsk" -> enc (enc_msk_seal kdf cbcenc_sm4 { em_ke = b f1; em_Ppube = b f2 } pass salt iv)
+         | "ek" -> enc (enc_key_seal kdf cbcenc_sm4 { ek_de = b f1; ek_Ppube = b f2 } pass salt iv)
+         | _ -> "ERR")
+      | _ -> failwith "NOHINT-E")
+   | "s9open", [ty; pass; h] -> let i = b h and pass = b pass in
+     let fin show r = (match r with
+         | Ok (k, rest) -> "OK " ^ show k ^ " " ^ soi (llen i - llen rest)
+         | Fault -> "FAULT" | _ -> "ERR") in
+     (match ty with
+      | "smsk" -> fin s_smsk (sign_msk_open g2_ok kdf cbcdec_sm4 pass i)
+      | "sk" -> fin s_sk (sign_key_open g1_ok g2_ok kdf cbcdec_sm4 pass i)
+      | "emsk" -> fin s_emsk (enc_msk_open g1_ok kdf cbcdec_sm4 pass i)
+      | "ek" -> fin s_ek (enc_key_open g1_ok g2_ok kdf cbcdec_sm4 pass i)
+      | _ -> "ERR")
+   | _ -> "ERR bad-op")
+
 let handle ws = match ws with
+  | op :: args when List.mem op x509_ops -> handle_x509 op args
+  | op :: args when List.mem op sm9_ops -> handle_sm9 op args
   | ["lenE"; l] ->
     let l = n_of_int (int_of_string l) in
     (match len_to_der l, len_size l with
